@@ -74,6 +74,9 @@ def gen_case(seed, tier):
             op = {'op': 'cull'}
         elif r < 0.95:
             op = {'op': 'expire'}
+        elif r < 0.965 and not fanout:
+            # the policy is a stored setting: another handle may change it, this one reloads it
+            op = {'op': 'repolicy', 'policy': rng.choice(('least-recently-stored', 'least-recently-used', 'least-frequently-used', 'none'))}
         else:
             op = {'op': 'advance', 'dt': rng.choice((0.001, 0.5, 2, 10))}
         prog.append(op)
